@@ -50,6 +50,7 @@ void Sink::setLevel(const std::string &module, int level)
 
 void Sink::unsetLevel(const std::string &module)
 {
+    std::lock_guard<std::mutex> _lk(lock_);
     modules_level_.erase(module);
 }
 
